@@ -11,6 +11,7 @@
  * All four 32-bit counters are otherwise arbitrary (wrap-around included).
  */
 #include "verif.h"
+#define VERIF_RG_POST_STEP   /* environment also acts after each of my atomic operations */
 #include "verif_rg.h"
 #include "parsec/class/parsec_rwlock.c"
 
